@@ -157,9 +157,22 @@ def r2(ctx, facts, tabs):
             r.fail("vector-width-unknown:" + nat, "type_size_for_vector claims %s is %d bytes wide but it is not a fixed-width CQL type" % (nat, w), vb.span)
 
 
-def const_arg(call, i):
+def const_arg(call, i, b=None, facts=None):
+    """integer constant passed as argument i: a literal, a local that was assigned one (also the parameter of an inlined
+    helper), or a named constant"""
     a = call.args[i]
-    return int(a[3]) if a[0] == "k" and a[1] == "int" else None
+    if a[0] == "k" and a[1] == "int":
+        return int(a[3])
+    if a[0] == "k" and a[1] == "other" and facts is not None and len(a) > 4 and a[4] in facts.consts:
+        return facts.consts[a[4]][1]
+    if b is not None and facts is not None and a[0] in ("c", "m"):
+        e = df_of(b, facts).expr_of_operand(a)
+        if e[0] == "const":
+            return e[1]
+        sd = b.single_def(a[1][0]) if not a[1][1] else None
+        if sd and sd[0] == "stmt" and sd[3][0] == "use" and sd[3][1][0] == "k" and sd[3][1][1] == "other" and len(sd[3][1]) > 4 and sd[3][1][4] in facts.consts:
+            return facts.consts[sd[3][1][4]][1]
+    return None
 
 
 def r3(ctx, facts):
@@ -168,11 +181,11 @@ def r3(ctx, facts):
     for fn, want in (("CellWriter::<'buf>::set_null", -1), ("CellWriter::<'buf>::set_unset", -2)):
         b = facts.one("^" + re.escape(W + fn) + "$")
         tb = b.calls_to("core::num::<impl i32>::to_be_bytes")
-        v = const_arg(tb[0], 0) if len(tb) == 1 else None
+        v = const_arg(tb[0], 0, b, facts) if len(tb) == 1 else None
         r.instance(fn.split("::")[-1] + "-writes-%d" % want, v == want, "%s writes length %s, CQL says %d" % (fn.split("::")[-1], v, want), b.span)
     nb = facts.one("^" + re.escape(W + "CellValueBuilder::<'buf>::new") + "$")
     tb = nb.calls_to("core::num::<impl i32>::to_be_bytes")
-    v = const_arg(tb[0], 0) if len(tb) == 1 else None
+    v = const_arg(tb[0], 0, nb, facts) if len(tb) == 1 else None
     r.instance("placeholder-is-invalid-length", v is not None and v < -2, "the value-builder placeholder must be an invalid length (< -2) so an unfinished cell is rejected by the server; it is %s" % v, nb.span)
     # finish() back-patches len - starting_pos - 4
     fb = facts.one("^" + re.escape(W + "CellValueBuilder::<'buf>::finish") + "$")
@@ -206,6 +219,10 @@ def r3(ctx, facts):
     r.instance("read_value:-1-is-null", got.get("Null") == -1, "read_value maps length %s to Null; writer writes -1" % got.get("Null"), rb.span)
     r.instance("read_value:-2-is-unset", got.get("Unset") == -2, "read_value maps length %s to Unset; writer writes -2" % got.get("Unset"), rb.span)
     vals_site = [(bb, j) for bb in rb.live_blocks for j, s in enumerate(rb.stmts(bb)) if s[0] == "A" and s[2][0] == "agg" and s[2][1][0] == "adt" and s[2][1][1] == RAW and s[2][1][2] == "Value"]
+    # `.map(RawValue::Value)`: the variant constructor passed as a function item builds the value at that call
+    for bb, c in rb.calls():
+        if bb in rb.live_blocks and any(a[0] == "k" and a[1] == "fn" and str(a[2]).endswith("RawValue::Value") for a in c.args):
+            vals_site.append((bb, len(rb.stmts(bb))))
     okv = False
     for bb, j in vals_site:
         st = df.state_before_stmt(bb, j) or {}
